@@ -29,6 +29,7 @@ type Program struct {
 	Lemmas    []*Contract
 	Axioms    []*Contract
 	LoadErrs  []string
+	FileErrs  map[string]string // contract file -> error (file skipped)
 	roMemo    map[*ssa.Function]int
 }
 
@@ -60,7 +61,7 @@ func loadProgram(repo string, pkgDirs []string, trustedDir string) (*Program, er
 		return nil, err
 	}
 	P := &Program{Repo: repo, Pkgs: pkgs, SSAPkgs: map[string]*ssa.Package{}, Funcs: map[string]*ssa.Function{},
-		Contracts: map[string]*Contract{}, Ghosts: map[string]*Contract{}, GhostVars: map[string]*Contract{}, Preds: map[string]*Contract{}}
+		FileErrs: map[string]string{}, Contracts: map[string]*Contract{}, Ghosts: map[string]*Contract{}, GhostVars: map[string]*Contract{}, Preds: map[string]*Contract{}}
 	for _, p := range pkgs {
 		for _, e := range p.Errors {
 			P.LoadErrs = append(P.LoadErrs, e.Error())
@@ -86,10 +87,11 @@ func loadProgram(repo string, pkgDirs []string, trustedDir string) (*Program, er
 		for _, f := range files {
 			cs, err := parseContractFile(f, pkgs[i].PkgPath)
 			if err != nil {
-				return P, err
+				P.FileErrs[f] = err.Error()
+				continue
 			}
 			if err := P.addContracts(cs); err != nil {
-				return P, err
+				P.FileErrs[f] = err.Error()
 			}
 		}
 	}
@@ -118,7 +120,8 @@ func (P *Program) addContracts(cs []*Contract) error {
 		switch c.Kind {
 		case "func":
 			if old, dup := P.Contracts[c.Key]; dup {
-				return fmt.Errorf("%s:%d: duplicate contract for %s (also %s:%d)", c.File, c.Line, c.Key, old.File, old.Line)
+				P.FileErrs[c.File] = fmt.Sprintf("%s:%d: duplicate contract for %s (also %s:%d); the later one is ignored", c.File, c.Line, c.Key, old.File, old.Line)
+				continue
 			}
 			P.Contracts[c.Key] = c
 		case "ghost":
@@ -127,7 +130,8 @@ func (P *Program) addContracts(cs []*Contract) error {
 			P.GhostVars[c.Name] = c
 		case "pred", "fn":
 			if _, dup := P.Preds[c.Name]; dup {
-				return fmt.Errorf("%s:%d: duplicate pred %s", c.File, c.Line, c.Name)
+				P.FileErrs[c.File] = fmt.Sprintf("%s:%d: duplicate pred %s; the later one is ignored", c.File, c.Line, c.Name)
+				continue
 			}
 			P.Preds[c.Name] = c
 		case "lemma":
